@@ -693,7 +693,16 @@ func (r *subrunner) doUncached(a *packageAction) (packageActionResult, error) {
 	// processed concurrently, we shouldn't load b's export data
 	// twice.
 
-	pkg, _, err := loader.Load(a.Package, &loader.Options{GoVersion: r.GoVersion})
+	goVersion := r.GoVersion
+	if a.factsOnly {
+		// The -go flag sets the version targeted by the code being checked. Dependencies,
+		// including the standard library, are only analyzed for their facts and have to be
+		// type-checked with the version that they themselves target. Otherwise, targeting a
+		// version older than what a dependency requires makes the dependency fail to
+		// type-check, and with it every package that imports it.
+		goVersion = "module"
+	}
+	pkg, _, err := loader.Load(a.Package, &loader.Options{GoVersion: goVersion})
 	if err != nil {
 		return packageActionResult{}, err
 	}
